@@ -101,6 +101,11 @@ impl<L: Language> RuleRegistration<L> {
     self.rewriters.insert(id, rewriter).expect("should work");
   }
 
+  /// check that `matches` inside local utility rules refer to defined utilities
+  pub(crate) fn verify_local_utils(&self) -> Result<(), crate::rule::RuleSerializeError> {
+    self.local.0.values().try_for_each(|r| r.verify_util())
+  }
+
   pub(crate) fn get_local_util_vars(&self) -> HashSet<&str> {
     let mut ret = HashSet::new();
     let utils = &self.local.0;
